@@ -120,7 +120,7 @@ def run(tier):
         for (what, got, exp) in probs:
             V.violation(f"{PID}|fftnoise|{what}|{'odd' if it[0]['N'] % 2 else 'even'}_N",
                         {"kind": "fft_case", "item": list(it), "message": f"fftnoise, N={it[0]['N']}, magnitude pattern {it[1]}: {what}: {got} vs {exp}"})
-    bands = [(N, fs, lo, hi, sd + 3) for N in (7, 8, 15, 16, 33, 64, 101) for fs in (1.0, 10.0)
+    bands = [(N, fs, lo, hi, sd + 3) for N in (7, 8, 15, 16, 33, 64, 101, 4098, 5003, 10007) for fs in (1.0, 10.0)     # (long lengths with large prime factors: no padded transform)
              for (lo, hi) in ((0.0, fs / 2), (0.1 * fs, 0.3 * fs), (0.2 * fs, 0.2 * fs), (0.0, 0.0), (0.3 * fs, fs / 2), (fs / N, 2 * fs / N))]
     for it, probs in zip(bands, common.pmap(band_case, bands, chunksize=8)):
         V.case({"band": it}, True)
